@@ -207,6 +207,13 @@ pub fn check_pos(ctx: &mut Ctx, mp: &MPos, b: &Board) {
             }
         }
     }
+    // fully spelled origin with every piece letter: only the right letter may resolve
+    for m in legal.iter().take(12) {
+        for l in ["N", "B", "R", "Q", "K"] {
+            variants.push(format!("{}{}{}", l, sq_name(m.from), sq_name(m.to)));
+            variants.push(format!("{}{}x{}", l, sq_name(m.from), sq_name(m.to)));
+        }
+    }
     // short pawn captures for every adjacent file pair, with and without promotion
     for f in 0..8u8 {
         for g in 0..8u8 {
